@@ -84,6 +84,18 @@ impl<'p> Interp<'p> {
 
 	pub fn builtin_static(&mut self, ty: &str, item: &str, args: Vec<V>, hint: Option<&syn::Type>) -> R<V> {
 		let mut args = args;
+		// serde model (see serde_model.rs)
+		if item == "deserialize" && args.len() == 1 {
+			if let V::Struct(n, _) = self.deref_val(&args[0]) {
+				if &*n == "__Deserializer" {
+					let de = args.remove(0);
+					return self.serde_derived_deserialize(ty, de);
+				}
+			}
+		}
+		if item == "custom" && matches!(ty, "SerdeError" | "Error") {
+			return Ok(V::Struct("__SerdeError".into(), vec![]));
+		}
 		match (ty, item) {
 			("Vec", "new") | ("String", "new") | ("Vec", "with_capacity") | ("VecDeque", "new") => {
 				if ty == "String" {
@@ -249,6 +261,12 @@ impl<'p> Interp<'p> {
 	pub fn builtin_method(&mut self, recv: V, name: &str, args: Vec<V>, hint: Option<&syn::Type>) -> R<V> {
 		let mut args = args;
 		let inner = self.deref_val(&recv);
+		if let V::Struct(sn, _) = &inner {
+			if sn.starts_with("__Ser") {
+				let sn = sn.to_string();
+				return self.serde_method(recv, &sn, name, args);
+			}
+		}
 		match inner {
 			V::F(f) => self.float_method(f, name, args, hint),
 			V::Int(..) | V::SInt(..) => self.int_method(inner, name, args, hint),
@@ -1899,6 +1917,36 @@ impl<'p> Interp<'p> {
 			"strict_div" => {
 				self.div_zero_forks = true;
 				Ok(V::Unit)
+			}
+			"serde_roundtrip" | "serde_from_parts" if !self.prog.features.contains("serde") || !self.prog.impls.contains_key(&("Window".to_string(), "deserialize".to_string())) => {
+				unsup("rsx::serde_* needs --features serde (Window's hand-written Serialize/Deserialize must be in the program)")
+			}
+			"serde_roundtrip" => {
+				// Option<T>: Some(restored) / None when deserialization returned an error
+				let tok = self.serde_ser_tok(&args[0])?;
+				match self.serde_de_tok(&tok)? {
+					Ok(v) => Ok(self.mk_some(v)),
+					Err(_) => Ok(self.mk_none()),
+				}
+			}
+			"serde_from_parts" => {
+				// adversarial serialized Window: rsx::serde_window(&buf_vec, index) -> Option<Window<T>>
+				let buf = self.deref_val(&args[0]);
+				let bt = self.serde_ser_tok(&buf)?;
+				let idx = self.deref_val(&args[1]);
+				let k1 = self.cell(V::Str("buf".into()));
+				let v1 = self.cell(bt);
+				let k2 = self.cell(V::Str("index".into()));
+				let v2 = self.cell(idx);
+				let e1 = self.cell(V::Tuple(vec![k1, v1]));
+				let e2 = self.cell(V::Tuple(vec![k2, v2]));
+				let map = self.cell(V::Seq(vec![e1, e2]));
+				let tyc = self.cell(V::Str("Window".into()));
+				let tok = V::Struct("__Tok".into(), vec![("ty".into(), tyc), ("map".into(), map)]);
+				match self.serde_de_tok(&tok)? {
+					Ok(v) => Ok(self.mk_some(v)),
+					Err(_) => Ok(self.mk_none()),
+				}
 			}
 			"debug" => {
 				eprintln!("[rsx::debug] {}", args.iter().map(|a| self.deref_val(a).brief()).collect::<Vec<_>>().join(" "));
